@@ -276,7 +276,7 @@ func (n *Node) addMisc(r *rand.Rand, hasText bool) {
 		misc = append(misc, Item{Kind: KDirective, Text: []string{"ENTITY e \"v\"", "X y", "DOCTYPE q", "ENTITY f \"v> <w\"", "7", "false"}[r.Intn(6)]})
 	}
 	if r.Intn(6) == 0 {
-		misc = append(misc, Item{Kind: KPI, Target: []string{"pi", "php", "x-y"}[r.Intn(3)], Text: []string{"a=\"b\"", "do it", "x", "x> <y"}[r.Intn(4)]})
+		misc = append(misc, Item{Kind: KPI, Target: []string{"pi", "php", "x-y"}[r.Intn(3)], Text: []string{"a=\"b\"", "do it", "x", "x> <y", "echo 1; ", "x\t", "href=\"a\"\n "}[r.Intn(7)]})
 	}
 	for _, m := range misc {
 		lo := 0
